@@ -320,9 +320,14 @@ func VerifC05_ServiceWorkerOnStop() {
 	m.status = StatusOnline
 	close(m.startComplete)
 	answer := rt.Choice("answer", 5)
+	// or: the worker failed shortly before the stop and waits for its restart
+	failedBefore := rt.Bool("failed-before-the-stop")
 	invocations, afterCancel := 0, 0
-	m.StartServiceWorker("sw", 0, func(ctx context.Context) error {
+	m.StartServiceWorker("sw", 3*time.Second, func(ctx context.Context) error {
 		invocations++
+		if failedBefore && invocations == 1 {
+			return errors.New("first run failed")
+		}
 		if ctx.Err() != nil {
 			afterCancel++
 			// invoked although the module context is already cancelled: at most
@@ -347,9 +352,16 @@ func VerifC05_ServiceWorkerOnStop() {
 		return nil
 	})
 	rt.Yield()
+	if failedBefore {
+		time.Sleep(50 * time.Millisecond) // the worker is in its back-off wait
+	}
 	reports := make(chan *report, 1)
+	t0 := time.Now()
 	m.stop(reports)
 	rep := <-reports
+	// all work returns at once when the context is cancelled: the stop does not
+	// wait out a restart back-off
+	rt.Assert(time.Since(t0) < time.Second, "swstop/stop-completes-promptly")
 	rt.Assert(rep.err == nil, "swstop/stop-ok")
 	rt.Assert(atomic.LoadInt32(m.workerCnt) == 0, "swstop/no-worker-left-at-report")
 	rt.Assert(m.Status() == StatusOffline, "swstop/offline")
